@@ -305,6 +305,9 @@ def run(ctx):
             ctx.skip('rejected:' + type(o[1]).__name__)
             continue
         root = o[1]
+        if (getattr(root, 'is_expression', False) or getattr(root, 'is_predicate', False)) and S.power_bomb(root):
+            ctx.skip('power-too-large-to-fold')
+            continue
         for _ in range(B['seqs']):
             run_sequence(root, abs_e, text, feats, schemas)
         if getattr(root, 'is_expression', False) or getattr(root, 'is_predicate', False):
